@@ -149,10 +149,12 @@ def check(case, stats=None):
         return out
     if snap.render_snapshot(o) != snap0:
         out.append((mksig(cname, mech, "original_changed_by_duplication"), ""))
-    if mech != "copy":
+    if mech != "copy" and stats is not None:
+        # a container shared by a deep copy and its original is a latent coupling, not yet one: the property is decided by the builder
+        # calls below (state of the other side compared after each); sharing is only counted
         shared = snap.shared_mutables(o, d)
         if shared:
-            out.append((mksig(cname, mech, "shared_container", shared[0]), "containers reachable from both graphs: %r" % shared[:4]))
+            stats["shared_container:%s:%s" % (cname, shared[0])] = stats.get("shared_container:%s:%s" % (cname, shared[0]), 0) + 1
     cur = {"o": o, "d": d}
     fam = {"o": mf, "d": mf}
     steps = {"o": [], "d": []}
@@ -235,7 +237,10 @@ def run_shard(shard):
             @settings(max_examples=per, database=None, deadline=None, suppress_health_check=list(HealthCheck), report_multiple_bugs=False, phases=[Phase.generate])
             @given(matrix_case(family, name))
             def one(case):
-                res = check(case)
+                stats = {}
+                res = check(case, stats)
+                for k_, v_ in stats.items():
+                    col.count(k_, v_)
                 col.case(case, nontrivial(case), classes=("mech:" + case["mech"], "family:" + case["family"], "matrix"))
                 for sig, detail in res:
                     col.violation(sig, case, detail)
@@ -249,7 +254,10 @@ def run_shard(shard):
     @settings(max_examples=nex, database=None, deadline=None, suppress_health_check=list(HealthCheck), report_multiple_bugs=False)
     @given(cases())
     def prop(case):
-        res = check(case)
+        stats = {}
+        res = check(case, stats)
+        for k_, v_ in stats.items():
+            col.count(k_, v_)
         col.case(case, nontrivial(case), classes=("mech:" + case["mech"], "family:" + case["family"], "suffix:%d" % len(case["suffix"])))
         for sig, detail in res:
             col.violation(sig, case, detail)
